@@ -52,10 +52,20 @@ pub fn campaign(run: &mut Run, target: &str, total_runs: u64) {
         }
         cmd.args([format!("-runs={per}"), format!("-seed={}", run.seed.wrapping_mul(1000) + j + 1), "-max_len=1024".into(), "-len_control=0".into(), "-print_final_stats=1".into(), format!("-artifact_prefix={}/", work.display())])
             .env("VERIF_ROOT", &root)
-            .stdout(std::process::Stdio::null())
-            .stderr(std::process::Stdio::piped());
+            .stdout(std::process::Stdio::null());
+        // stderr goes to a file: with pipes, the jobs not currently being waited for block as soon as
+        // their pipe buffer is full and the campaign degenerates into a sequential one
+        let log = work.join(format!("job-{j}.log"));
+        match std::fs::File::create(&log) {
+            Ok(f) => {
+                cmd.stderr(f);
+            }
+            Err(_) => {
+                cmd.stderr(std::process::Stdio::null());
+            }
+        }
         match cmd.spawn() {
-            Ok(c) => children.push(c),
+            Ok(c) => children.push((c, log)),
             Err(e) => run.health_fail(format!("cannot start {}: {e}", bin.display())),
         }
     }
@@ -63,9 +73,9 @@ pub fn campaign(run: &mut Run, target: &str, total_runs: u64) {
     let mut corpus_units = 0u64;
     let mut cov = 0u64;
     let mut found: Vec<String> = vec![];
-    for c in children {
-        let Ok(out) = c.wait_with_output() else { continue };
-        let text = String::from_utf8_lossy(&out.stderr);
+    for (mut c, log) in children {
+        let Ok(status) = c.wait() else { continue };
+        let text = std::fs::read_to_string(&log).unwrap_or_default();
         for l in text.lines() {
             if let Some(v) = l.strip_prefix("stat::number_of_executed_units:") {
                 executed += v.trim().parse::<u64>().unwrap_or(0);
@@ -80,7 +90,7 @@ pub fn campaign(run: &mut Run, target: &str, total_runs: u64) {
                 found.push(rest.to_string());
             }
         }
-        if !out.status.success() && !text.contains("FUZZ-VIOLATION") && !text.contains("DONE") {
+        if !status.success() && !text.contains("FUZZ-VIOLATION") && !text.contains("DONE") {
             run.health_fail(format!("fuzz target {target} ended abnormally without a judged violation: {}", text.lines().rev().take(5).collect::<Vec<_>>().join(" | ")));
         }
     }
